@@ -14,16 +14,22 @@ VERIF_DEFINE_CELT_FATAL
 #define VERIF_PLEN 5          /* bytes per input packet */
 #endif
 #ifndef VERIF_MAXF
-#define VERIF_MAXF 3          /* frames per input packet */
+#define VERIF_MAXF 2          /* frames per input packet */
 #endif
 #define SMALL_COUNT(d, len) (((d)[0] & 3) != 3 || ((len) >= 2 && ((d)[1] & 0x3F) <= VERIF_MAXF && !((d)[1] & 0x40)))
 
-static unsigned char *sym_packet(int *plen)
+#ifndef VERIF_L1
+#define VERIF_L1 3
+#endif
+#ifndef VERIF_L2
+#define VERIF_L2 3
+#endif
+/* packets of concrete length (exact-size heap objects, every byte symbolic) */
+static unsigned char *sym_packet(int *plen, int len)
 {
-   int len = nondet_int(), i; unsigned char *p;
-   __CPROVER_assume(1 <= len && len <= VERIF_PLEN);
+   int i; unsigned char *p;
    p = malloc(len); __CPROVER_assume(p != NULL);
-   for (i = 0; i < VERIF_PLEN; i++) if (i < len) p[i] = nondet_uchar();
+   for (i = 0; i < len; i++) p[i] = nondet_uchar();
    __CPROVER_assume(SMALL_COUNT(p, len));
    *plen = len; return p;
 }
@@ -33,7 +39,7 @@ void h_repack_two(void)
 {
    OpusRepacketizer rp; int l1, l2, r1, r2, n1, n2, k, j, outn, ret; unsigned char *p1, *p2, *out; opus_int32 maxlen, olen;
    unsigned char t1, t2, to; const unsigned char *f1[48], *f2[48], *fo[48]; opus_int16 s1[48], s2[48], so[48];
-   p1 = sym_packet(&l1); p2 = sym_packet(&l2);
+   p1 = sym_packet(&l1, VERIF_L1); p2 = sym_packet(&l2, VERIF_L2);
    opus_repacketizer_init(&rp);
    r1 = opus_repacketizer_cat(&rp, p1, l1);
    n1 = opus_packet_parse(p1, l1, &t1, f1, s1, NULL);
@@ -47,11 +53,11 @@ void h_repack_two(void)
       if (r2 != OPUS_OK) { __CPROVER_assert(opus_repacketizer_get_nb_frames(&rp) == n1, "rejection leaves the contents unchanged"); n2 = 0; }
    }
    outn = n1 + n2;
-   maxlen = nondet_int(); __CPROVER_assume(0 <= maxlen && maxlen <= 2 * VERIF_PLEN + 8);
+   maxlen = nondet_int(); __CPROVER_assume(0 <= maxlen && maxlen <= VERIF_L1 + VERIF_L2 + 4);
    out = malloc(maxlen > 0 ? maxlen : 1); __CPROVER_assume(out != NULL);
    olen = opus_repacketizer_out(&rp, out, maxlen);
    __CPROVER_assert(olen == OPUS_BUFFER_TOO_SMALL || (1 <= olen && olen <= maxlen), "output never exceeds maxlen; otherwise refused cleanly");
-   __CPROVER_assert(maxlen < 2 * VERIF_PLEN + 4 || olen > 0, "a generous buffer always suffices");
+   __CPROVER_assert(maxlen < VERIF_L1 + VERIF_L2 + 3 || olen > 0, "a buffer of the input sizes plus header always suffices");
    if (olen <= 0) return;
    CANARY("emitted");
    ret = opus_packet_parse(out, olen, &to, fo, so, NULL);
@@ -69,10 +75,10 @@ void h_pad_unpad(void)
 {
    int l1, n1, n2, k, j, r; unsigned char *p1, *buf; opus_int32 newlen, ul, ul2;
    unsigned char t1, t2; const unsigned char *f1[48], *f2[48]; opus_int16 s1[48], s2[48];
-   p1 = sym_packet(&l1);
-   newlen = nondet_int(); __CPROVER_assume(l1 <= newlen && newlen <= VERIF_PLEN + 4);
+   p1 = sym_packet(&l1, VERIF_L1);
+   newlen = nondet_int(); __CPROVER_assume(l1 <= newlen && newlen <= VERIF_L1 + 3);
    buf = malloc(newlen); __CPROVER_assume(buf != NULL);
-   for (j = 0; j < VERIF_PLEN; j++) if (j < l1) buf[j] = p1[j];
+   for (j = 0; j < VERIF_L1; j++) buf[j] = p1[j];
    n1 = opus_packet_parse(p1, l1, &t1, f1, s1, NULL);
    r = opus_packet_pad(buf, l1, newlen);
    __CPROVER_assert(r == OPUS_OK || r == OPUS_INVALID_PACKET, "pad returns OK or INVALID_PACKET for new_len >= len");
